@@ -35,7 +35,7 @@ impl Monitor for C04 {
         "exploration"
     }
     fn num_cases(&self, tier: Tier) -> u64 {
-        tier.pick(1600, 40_000)
+        tier.pick(9_600, 120_000)
     }
     fn floors(&self, tier: Tier) -> Vec<(&'static str, u64)> {
         vec![
